@@ -78,6 +78,12 @@ func genBatchProjects(root string, seed uint64, nProj int, tagProp string) ([]*S
 			}
 		}
 		sc.YearlyCols = append(sc.YearlyCols, OutCol{Format: "%s", Var: "C1NotStableErr", Width: 14})
+		if !sc.PrecipCorr {
+			sc.AlwaysPreco = true
+			for m := 0; m < 12; m++ {
+				sc.PrecoFactors[m] = float64(r.Range(90, 135)) / 100
+			}
+		}
 		sc.Project = fmt.Sprintf("p%02d", i)
 		sc.Weather.Folder = fmt.Sprintf("wx%02d", i)
 		sc.ResultFormat = 1
